@@ -76,13 +76,20 @@ def lean_build():
         lock.close()
 
 
+def prop_modules(pid):
+    """Props/<pid>.lean plus continuation files Props/<pid>b.lean, …"""
+    files = sorted(glob.glob(os.path.join(LEAN_DIR, "PyTreesProofs", "Props", pid + "*.lean")))
+    return [(os.path.splitext(os.path.basename(f))[0], f) for f in files]
+
+
 def theorems_of(pid):
-    """names of the property theorems stated in Props/<pid>.lean (comments stripped)"""
+    """names of the property theorems (`theorem <pid>_…`) stated in Props/<pid>*.lean (comments stripped)"""
+    names = []
     path = os.path.join(LEAN_DIR, "PyTreesProofs", "Props", pid + ".lean")
-    if not os.path.exists(path):
-        return [], path
-    src = strip_comments(open(path).read())
-    return re.findall(r"^\s*theorem\s+(" + pid + r"_[A-Za-z0-9_']+)", src, re.M), path
+    for _, f in prop_modules(pid):
+        src = strip_comments(open(f).read())
+        names += re.findall(r"^\s*theorem\s+(" + pid + r"_[A-Za-z0-9_']+)", src, re.M)
+    return names, path
 
 
 def forbidden_hits():
@@ -99,7 +106,8 @@ def audit_axioms(pid, names):
     """#print axioms for every property theorem; {name: [axioms]} (None when the theorem is missing)"""
     if not names:
         return {}
-    body = "import PyTreesProofs.Props.%s\n" % pid + "".join("#print axioms %s\n" % n for n in names)
+    body = "".join("import PyTreesProofs.Props.%s\n" % m for m, _ in prop_modules(pid)) + \
+        "".join("#print axioms %s\n" % n for n in names)
     tmp = os.path.join(LEAN_DIR, ".audit_%s_%d.lean" % (pid, os.getpid()))
     open(tmp, "w").write(body)
     try:
@@ -121,7 +129,8 @@ def audit_axioms(pid, names):
 
 
 def leanchecker(pid):
-    p = subprocess.run(["lake", "env", "leanchecker", "PyTreesProofs.Props.%s" % pid], cwd=LEAN_DIR,
+    p = subprocess.run(["lake", "env", "leanchecker"] + ["PyTreesProofs.Props.%s" % m for m, _ in prop_modules(pid)],
+                       cwd=LEAN_DIR,
                        stdout=subprocess.PIPE, stderr=subprocess.STDOUT, timeout=3000)
     return p.returncode == 0, p.stdout.decode(errors="replace")[-2000:]
 
